@@ -6,6 +6,8 @@ Decided (structural, for all inputs):
  R2 K1  on the Err outcome of do_open the output buffer is zeroized (both interfaces).
  R3 K6  the sequence number returned comes from the parsed DataHeader; lengths derive from
         checked_sub / split_*_checked (no unchecked arithmetic: covered by R1 overflow class).
+ R4 K6  seal cuts `dst` to plaintext.len() + OVERHEAD before splitting the header slot off its end
+        (the layout `open` expects).
 Not decided: AEAD authenticity (spideroak-crypto, trusted)."""
 from rules.core import k4
 from rules.core.facts import PASS_THROUGH
@@ -98,3 +100,29 @@ def run(F, rep, tier):
                 has_open = any(c.is_("Client::do_open") for c in srcs)
                 rep.check(has_hdr and has_open, "Client::%s|return-provenance" % name, "K6 provenance",
                           "returned (label, seq) derive from do_open's result and the parsed DataHeader", site=f.site(s.line))
+    seal_layout_rule(F, rep)
+
+
+def seal_layout_rule(F, rep):
+    """R4: layout agreement of the copying interface. A sealed message is `ciphertext || tag || header` in
+    exactly plaintext.len() + OVERHEAD bytes, and `open` takes the header from the *last* bytes of the message it
+    is given. So `seal` must cut the caller's buffer down to that length before it splits the header slot off
+    its end; splitting the untrimmed buffer puts the header at the end of an oversized `dst`, outside the message."""
+    C = "aranya_fast_channels::client::Client::"
+    f = F.fn(C + "seal")
+    sp = [c for c in f.calls if c.name == "split_last_chunk_mut"]
+    if len(sp) != 1:
+        rep.anchor_missing("Client::seal: split_last_chunk_mut (header slot)")
+        return
+    og = f.origins(sp[0].args[0], through_calls=PASS_THROUGH + ("slice::get_mut", "get_mut", "Option::ok_or_else", "Index::index", "IndexMut::index_mut", "split_at_mut", "split_at_mut_checked"))
+    sl, sites = f.backward_sources(sp[0].args[0].place.local, through_calls=PASS_THROUGH + ("slice::get_mut", "get_mut", "Option::ok_or_else", "IndexMut::index_mut", "split_at_mut", "split_at_mut_checked"))
+    trimmed = False
+    for k, c in sites:
+        if k == "call" and c.name in ("get_mut", "index_mut", "split_at_mut", "split_at_mut_checked") and len(c.args) > 1:
+            a = f.origins(c.args[1], through_calls="*")
+            if "call:checked_add" in a and "call:len" in a:
+                trimmed = True
+    rep.check(trimmed and "argname:dst" in og, "seal|header-slot-at-end-of-message", "K6 provenance",
+              "the header slot is split off the end of `dst[..plaintext.len() + OVERHEAD]` (the buffer is cut to the message length first)",
+              "Client::seal splits the header slot off the end of the caller's whole buffer instead of `dst[..plaintext.len() + OVERHEAD]`: with an oversized `dst` the header "
+              "lands outside the message and `open` reads stale bytes as the header", sp[0].site())
